@@ -95,6 +95,31 @@ MUTANTS = [
      "                    # similar individual\n                    if self.similar(ind, hofer):\n                        break\n"
      "                else:\n",
      "                if not any(self.similar(ind, hofer) for hofer in self):\n"),
+    # ---- tie (T): mutants the correspondence misses (sizes beyond the generators); the broken equivalence
+    # Proofs/C08_gen_equiv.v triggers the wide search, which must produce a concrete failing input
+    ("T_scan_first_32", "break",
+     "                for hofer in self:\n                    # Loop through",
+     "                for hofer in self.items[:32]:\n                    # Loop through"),
+    ("T_evict_cap_40", "break",
+     "                    if len(self) >= self.maxsize:",
+     "                    if len(self) >= min(self.maxsize, 40):"),
+    ("T_remove_at_most_12", "break",
+     "            for i in reversed(to_remove):       # Remove the dominated hofer",
+     "            for i in reversed(to_remove[:12]):       # Remove the dominated hofer"),
+    # ---- tie (T): harmless rewrites the equivalence proofs must absorb (no VIOLATION)
+    ("H_reorder_inserts", "harmless",
+     "        self.items.insert(len(self) - i, item)\n        self.keys.insert(i, item.fitness)",
+     "        n = len(self)\n        self.keys.insert(i, item.fitness)\n        self.items.insert(n - i, item)"),
+    ("H_index_loop", "harmless",
+     "            for i, hofer in enumerate(self):    # hofer = hall of famer\n",
+     "            for i in range(len(self)):\n                hofer = self[i]\n"),
+    ("H_hoist", "harmless",
+     "            if ind.fitness > self[-1].fitness or len(self) < self.maxsize:",
+     "            worst = self[-1]\n            better = ind.fitness > worst.fitness\n"
+     "            if better or len(self) < self.maxsize:"),
+    ("H_not_items", "harmless",
+     "if len(self) == 0 and self.maxsize != 0:",
+     "if not self.items and self.maxsize != 0:"),
 ]
 
 
